@@ -158,6 +158,26 @@ def _mk_circle(version):
     return Circle
 
 
+class KBase:
+    """A registered base class whose savorize normalises the name."""
+    def __init__(self, name: str) -> None:
+        self.name = name
+
+    @classmethod
+    def _yatiml_savorize(cls, node: yatiml.Node) -> None:
+        if node.has_attribute_type('name', str):
+            node.set_attribute(
+                'name', str(node.get_attribute('name').get_value())
+                .strip().lower())
+
+
+class KUnit(KBase):
+    def __init__(self, name: str, factor: float = 1.0) -> None:
+        super().__init__(name)
+        self.factor = factor
+
+
+TEXTK = 'name: "  KiloMetre "\nfactor: 1000.0\n'
 CV1, CV2 = _mk_circle(1), _mk_circle(2)
 TEXT11 = 'name: c\nradius: 2.0\n'
 PD, PS = _mk_P()
@@ -182,6 +202,7 @@ def _functions():
         'loadV1': yatiml.load_function(Shape11, CV1),
         'loadV2': yatiml.load_function(Shape11, CV2),
         'dumpsV1': yatiml.dumps_function(Shape11, CV1),
+        'loadK': yatiml.load_function(KUnit, KBase),
     }
 
 
@@ -224,6 +245,12 @@ def _battery(F):
     out.append(('own classes',
                 _outcome(lambda: type(F['loadV1'](TEXT11)) is CV1),
                 _outcome(lambda: type(F['loadV2'](TEXT11)) is CV2)))
+    # a hook of a registered base class runs on EVERY load (expected value
+    # stated here, not taken from a first run)
+    out.append(('base hook', _outcome(lambda: F['loadK'](TEXTK).name)
+                == ('value', ('str', 'kilometre')),
+                _outcome(lambda: yatiml.load_function(KUnit, KBase)(
+                    TEXTK).name) == ('value', ('str', 'kilometre'))))
     # PyYAML itself: what it did before yatiml was ever used
     out.append(('pyyaml', _pyyaml_probe() == PRISTINE_PROBE,
                 _pyyaml_tables() == PRISTINE_TABLES))
@@ -235,6 +262,43 @@ def _user_sig():
         v, (dict, list, set, str, int, float, bool, type(None))) else '')
         for k, v in c.__dict__.items() if k != '__slotnames__')
         for c in (PD, PS, QD, QS, DBase, Timeout, Retry)]
+
+
+def _module_state():
+    """Everything mutable that lives at module or function level in yatiml:
+    module globals that are containers, and container-valued DEFAULT
+    ARGUMENTS of every function and method (a default is created once and
+    shared by all calls)."""
+    import sys
+    import types
+    out = []
+    for mname in sorted(m for m in sys.modules
+                        if m == 'yatiml' or m.startswith('yatiml.')):
+        mod = sys.modules[mname]
+        fns = []
+        for name, obj in sorted(vars(mod).items()):
+            if name.startswith('__'):
+                continue
+            if isinstance(obj, (dict, list, set)) and \
+                    getattr(obj, '__module__', None) is None:
+                out.append((mname, name, _table_sig(obj)
+                            if len(obj) < 200 else len(obj)))
+            if isinstance(obj, types.FunctionType) and \
+                    obj.__module__ == mname:
+                fns.append((name, obj))
+            if isinstance(obj, type) and obj.__module__ == mname:
+                for k, v in sorted(vars(obj).items()):
+                    f = getattr(v, '__func__', v)
+                    if isinstance(f, types.FunctionType):
+                        fns.append((name + '.' + k, f))
+        for name, f in fns:
+            for d in (f.__defaults__ or ()) + tuple(
+                    (f.__kwdefaults__ or {}).values()):
+                if isinstance(d, (dict, list, set)):
+                    out.append((mname, name, 'default',
+                                sorted(map(repr, d)) if isinstance(d, set)
+                                else _table_sig(d)))
+    return out
 
 
 def _yatiml_base_sig():
@@ -298,7 +362,9 @@ PRISTINE_USER = _user_sig()
 PRISTINE_YATIML = _yatiml_base_sig()
 LONG_LIVED = _functions()
 BASELINE = _battery(_functions())       # what fresh functions give
-assert _battery(LONG_LIVED) == BASELINE
+# not an assert: a tree on which the second function already differs from
+# the first must be REPORTED (every history then fails), not crash the check
+IMPORT_OK = _battery(LONG_LIVED) == BASELINE
 
 
 def snapshot():
@@ -307,7 +373,8 @@ def snapshot():
                 yatiml.util.scalar_type_to_tag),
             # __slotnames__ is copyreg's cache on the class (written by
             # copy/pickle machinery, e.g. the engine's own deep copies)
-            'user': _user_sig()}
+            'user': _user_sig(),
+            'module_state': _module_state()}
     return snap
 
 
@@ -375,13 +442,16 @@ def _history(n, o1, o2, o3, o4):
             return False
     got = _battery(LONG_LIVED)
     own = ('own classes', ('value', ('bool', True)), ('value', ('bool', True)))
-    pristine = (got[-1] == ('pyyaml', True, True) and got[-2] == own
+    pristine = (got[-1] == ('pyyaml', True, True) and got[-3] == own
+                and got[-2] == ('base hook', True, True) and IMPORT_OK
                 and _user_sig() == PRISTINE_USER
                 and _yatiml_base_sig() == PRISTINE_YATIML)
     if not pristine:
         if not SYMBOLIC:
             note(history=ops, pyyaml_as_before_first_use=got[-1],
-                 each_function_builds_its_own_classes=got[-2],
+                 each_function_builds_its_own_classes=got[-3],
+                 base_class_hook_runs_on_every_load=got[-2],
+                 long_lived_functions_equal_fresh_ones_at_import=IMPORT_OK,
                  user_classes_unchanged=_user_sig() == PRISTINE_USER,
                  yatiml_base_classes_unchanged=(
                      _yatiml_base_sig() == PRISTINE_YATIML))
@@ -674,6 +744,63 @@ def interleaved(a: int, k: int, b: int) -> bool:
     return r is not False
 
 
+# ---- finer grain: every log call of yatiml is a pre-emption point too
+# (a logging handler is user code that yatiml calls at nearly every step of
+# recognition, construction and representation, also between a store to an
+# object shared by all calls of a function and the use of what was stored)
+import logging                                  # noqa: E402
+
+
+class _YieldHandler(logging.Handler):
+    def emit(self, record):
+        _yield_point()
+
+
+_YLOG = logging.getLogger('yatiml')
+_YHANDLER = _YieldHandler(level=logging.DEBUG)
+
+
+def _fine(on):
+    if on:
+        _YLOG.addHandler(_YHANDLER)
+        _YLOG.setLevel(logging.DEBUG)
+    else:
+        _YLOG.removeHandler(_YHANDLER)
+        _YLOG.setLevel(logging.NOTSET)
+
+
+FINE_A = [0, 1, 2, 3, 6]          # loads and string dumps
+FINE_B = [NOPS + 0, NOPS + 1, NOPS + 2, NOPS + 3, NOPS + 4, 5, 13, 14]
+_fine(True)
+FINE_POINTS = {a: _count_points(_fresh, a) for a in FINE_A}
+_fine(False)
+FINE_STRIDE = 6 if tier() == 'quick' else 1
+
+
+def _interleave_fine(a, k, b):
+    _fine(True)
+    try:
+        return _interleave(a, k, b)
+    finally:
+        _fine(False)
+
+
+def interleaved_fine(ai: int, k: int, bi: int) -> bool:
+    """
+    pre: 0 <= ai < 5 and 0 <= k < 400 and 0 <= bi < 8
+    post: __return__
+    """
+    s = slice_no(-1)
+    if s >= 0 and (ai != s // 8 or bi != s % 8):
+        return True
+    a = pick(FINE_A, ai)
+    b = pick(FINE_B, bi)
+    if k >= FINE_POINTS[a] or k % FINE_STRIDE != 0:
+        return True
+    r = _interleave_fine(a, k, b)
+    return r is not False
+
+
 def interleaved_reach(a: int, k: int, b: int) -> bool:
     """
     pre: 0 <= a < 9 and 0 <= k < 70 and 0 <= b < 33
@@ -722,6 +849,17 @@ CONDITIONS = [
               'they give alone, the state afterwards is unchanged and the '
               'battery equals the fresh-function baseline.  Pre-emption '
               'between arbitrary bytecodes is outside the claim'},
+    {'fn': 'interleaved_fine', 'slices': list(range(40)), 'quick': 110,
+     'thorough': 900,
+     'bound': 'the same with every LOG CALL of yatiml as a pre-emption point '
+              '(a logging handler on the yatiml logger is user code called '
+              'at nearly every step): operation A out of 5 (load of a valid / '
+              'invalid document from a string or a stream, dumps, '
+              'dumps_json) suspended at its k-th point (thorough: every k; '
+              'quick: every 6th), operation B out of 8 (loads and dumps on '
+              'the SAME function objects, an unrelated load and dumps, a JSON '
+              'dump refused half way) runs to the end, A resumes; same '
+              'assertions as interleaved'},
     {'fn': 'interleaved_reach', 'quick': 60, 'thorough': 60,
      'expect': 'REFUTED',
      'bound': 'reachability twin: a JSON dump suspended at its last sweeten '
